@@ -19,12 +19,17 @@
   (getBlock4DB; append confirms; setBlock2DB): the r row is held when ChainDatabase.RW is held at the read, the w
   row when RW is held at the write back AND it is the SAME critical section as the read (same Lock() statement, or
   both inherited from the caller and never released in between): a release between read and write = lost update.
+  ForkManager.head.decision = reads of the fork head / stable head that feed a decision: inside every function that
+  takes DPoVP.chainLock, each call that reads the head (directly or through its callees) is a row named
+  <function>/<callee>; held = the call is made with the chain lock of that function held, i.e. the critical section
+  starts BEFORE the head is read.  The rows listed in benignPrechecks are outside on purpose (false in this table):
+  InsertBlock's early exit isIgnorableBlock tests monotone facts and is re-validated under the lock.
 -/
 namespace LemoModel.LockFacts
 
 inductive Var where
   | sigCache | lastSig | head | unConfirmBlocks | lastConfirm | offset | index | termList | evilDeputies
-  | blockRecord
+  | blockRecord | headDecision
   deriving DecidableEq, Repr
 
 def Var.ofString? : String → Option Var
@@ -38,6 +43,7 @@ def Var.ofString? : String → Option Var
   | "Manager.termList" => some .termList
   | "Manager.evilDeputies" => some .evilDeputies
   | "Beansdb.blockRecord" => some .blockRecord
+  | "ForkManager.head.decision" => some .headDecision
   | _ => none
 
 /-- the kind of entry point a row is about (the prefix of the entry name) -/
@@ -263,6 +269,18 @@ def table : List Row := [
   ⟨.head, "ForkManager.SetHeadBlock", true, true, .engine, "DPoVP.InsertBlock"⟩,
   ⟨.head, "ForkManager.SetHeadBlock", true, true, .engine, "DPoVP.InsertConfirms"⟩,
   ⟨.head, "ForkManager.SetHeadBlock", true, true, .engine, "DPoVP.MineBlock"⟩,
+  ⟨.headDecision, "DPoVP.InsertBlock/Confirmer.TryConfirm", false, true, .engine, "DPoVP.InsertBlock"⟩,
+  ⟨.headDecision, "DPoVP.InsertBlock/DPoVP.VerifyAndSeal", false, true, .engine, "DPoVP.InsertBlock"⟩,
+  ⟨.headDecision, "DPoVP.InsertBlock/DPoVP.isIgnorableBlock", false, false, .engine, "DPoVP.InsertBlock"⟩,
+  ⟨.headDecision, "DPoVP.InsertBlock/DPoVP.saveNewBlock", false, true, .engine, "DPoVP.InsertBlock"⟩,
+  ⟨.headDecision, "DPoVP.InsertConfirms/DPoVP.CurrentBlock", false, true, .engine, "DPoVP.InsertConfirms"⟩,
+  ⟨.headDecision, "DPoVP.InsertConfirms/DPoVP.StableBlock", false, true, .engine, "DPoVP.InsertConfirms"⟩,
+  ⟨.headDecision, "DPoVP.InsertConfirms/DPoVP.UpdateStable", false, true, .engine, "DPoVP.InsertConfirms"⟩,
+  ⟨.headDecision, "DPoVP.InsertConfirms/DPoVP.logCurrentChange", false, true, .engine, "DPoVP.InsertConfirms"⟩,
+  ⟨.headDecision, "DPoVP.InsertConfirms/ForkManager.UpdateForkForConfirm", false, true, .engine, "DPoVP.InsertConfirms"⟩,
+  ⟨.headDecision, "DPoVP.MineBlock/BlockAssembler.MineBlock", false, true, .engine, "DPoVP.MineBlock"⟩,
+  ⟨.headDecision, "DPoVP.MineBlock/DPoVP.CurrentBlock", false, true, .engine, "DPoVP.MineBlock"⟩,
+  ⟨.headDecision, "DPoVP.MineBlock/DPoVP.saveNewBlock", false, true, .engine, "DPoVP.MineBlock"⟩,
   ⟨.evilDeputies, "Manager.IsEvilDeputyNode", false, true, .ext, "ext:Manager.IsEvilDeputyNode"⟩,
   ⟨.evilDeputies, "Manager.IsEvilDeputyNode", true, true, .ext, "ext:Manager.IsEvilDeputyNode"⟩,
   ⟨.evilDeputies, "Manager.PutEvilDeputyNode", true, true, .go, "go:DPoVP.InsertBlock$1"⟩,
@@ -299,8 +317,12 @@ def guards : List (Var × String) := [
   (.index, "FileQueue.IndexRW"),
   (.termList, "Manager.lock"),
   (.evilDeputies, "Manager.edLock"),
-  (.blockRecord, "ChainDatabase.RW")
+  (.blockRecord, "ChainDatabase.RW"),
+  (.headDecision, "DPoVP.chainLock")
 ]
+
+/-- head reads that are deliberately made before the chain lock is taken (see the header) -/
+def benignPrechecks : List String := ["DPoVP.InsertBlock/DPoVP.isIgnorableBlock"]
 
 /-- every listed access of `v` from a real entry point holds `v`'s lock
     (rows with entry "-" are constructor / start-up code that runs before the object is shared) -/
